@@ -124,6 +124,27 @@ class DatabaseState(object):
             'unique_indexes': {},
         }
 
+    def rename_table(self, old_table_name, new_table_name):
+        """Move the tracked state of a table to a new table name.
+
+        Renaming a table keeps its indexes, so anything tracked for the
+        old name is tracked under the new name from here on. If the old
+        table isn't tracked, this does nothing.
+
+        Args:
+            old_table_name (unicode):
+                The name the table had.
+
+            new_table_name (unicode):
+                The name the table has now.
+        """
+        old_table_name = self._norm_table_name(old_table_name)
+        new_table_name = self._norm_table_name(new_table_name)
+
+        if (old_table_name != new_table_name and
+            old_table_name in self._tables):
+            self._tables[new_table_name] = self._tables.pop(old_table_name)
+
     def has_table(self, table_name):
         """Return whether a table is being tracked.
 
